@@ -67,11 +67,11 @@ def run(chk) -> None:
         "a function of one feature of the definition (closed world). main is evaluated the same way on a representative clash list with tokens for chains, residues and atoms: listed lines and "
         "CSV rows = the clashes, every atom under its own residue (key and record of a filed clash agree on orientation), printed maxima = maxima of the listed lines (maxima in the middle of file and sort order; "
         "residue pairs that differ in one identity component), same order in both outputs, independence of set iteration order; the evaluated call of find_clashes binds every option parameter to the switch of the same name "
-        "(positional or keyword); read_metadata receives an open file. Accumulator updates read what they write; no truthiness default on occupancies. The pinned-form rules run only when a function cannot be evaluated."
+        "(positional or keyword); the structure is read the same way with and without the switches and find_clashes receives every residue of it that it would consider (no option reaches the parser, the report of one clash list does not depend on the switches); read_metadata receives an open file. Accumulator updates read what they write; no truthiness default on occupancies. The pinned-form rules run only when a function cannot be evaluated."
     )
     chk.trusted = ["CPython ast", "scipy KDTree.query_pairs returns every pair within the radius exactly once"]
     chk.assumptions = ["float distance arithmetic is not decided", "atom typing by first letter of the name as coded (C/N/O/P)"]
-    chk.robust |= {"atom-types", "molprobity-term", "search-radius", "distance-region", "option-extra-filter", "optional-truthiness", "cli-arguments", "accumulator", "csv-metadata-arg", "collection"}
+    chk.robust |= {"atom-types", "molprobity-term", "search-radius", "distance-region", "option-extra-filter", "optional-truthiness", "cli-arguments", "cli-structure", "accumulator", "csv-metadata-arg", "collection"}
     radii = atom_types(chk)
     at = repo.cls(M, "AtomType")
     chk.expect(set(radii) == {"C", "N", "O", "P"} and all(isinstance(v, float) and v > 0 for v in radii.values()), "atom-types", f"src/rnapolis/clashfinder.py:{at.lineno} AtomType", f"four atom types with radii {radii}", f"atom types/radii are not total over C, N, O, P: {radii}", f"{M}:AtomType:radii", found=radii)
@@ -299,6 +299,10 @@ def legacy_cli_arguments(chk, mn, params) -> None:
         chk.error("cli-arguments", mn.where, f"arguments of find_clashes not understood: {found}")
     else:
         chk.expect(ok, "cli-arguments", mn.where, "every option is passed to the parameter of the same name", "CLI options are not passed to find_clashes parameters of the same name (mix-up)", K(mn, "cli-args"), expected=["structure3d.residues"] + [f"args.{p}" for p in params[1:]], found=found)
+    # the structure is read without any option (pinned reading: no `args.<option>` among the arguments of the reader)
+    for c2 in astq.calls(mn.node, "read_3d_structure"):
+        used = sorted({n.attr for a in list(c2.args) + [k.value for k in c2.keywords] for n in ast.walk(a) if isinstance(n, ast.Attribute) and isinstance(n.value, ast.Name) and n.value.id == "args" and n.attr in params[1:]})
+        chk.expect(not used, "cli-structure", mn.site(c2), "the structure is read without any option: find_clashes receives the whole structure of the input file", f"read_3d_structure receives option(s) {used}: the structure handed to find_clashes is pre-filtered by the parser's own criterion, the tool lists only what passes both filters", K(mn, "reader-args"))
     flags = sorted(a.args[0].value for a in astq.calls(mn.node, "add_argument") if a.args and isinstance(a.args[0], ast.Constant) and any(k.arg == "action" and norm(k.value) == "'store_true'" for k in a.keywords))
     chk.expect(flags == sorted("--" + p.replace("_", "-") for p in params[1:]), "cli-arguments", mn.where, "one boolean switch per option", "the set of boolean switches differs from find_clashes' options", K(mn, "cli-flags"), found=flags)
 
@@ -404,7 +408,7 @@ MANIFEST_ENTRY = {
     "text": "Static decision on the current source of clashfinder.py: the KD-tree radius (evaluated for all 32 option combinations) is at least r_a + r_b + extra for every pair of atom types, so no accepted pair is outside the search; "
     "the pairs listed by find_clashes, evaluated on one representative per input class (type pair x distance cell, residue/nucleotide configuration, two different residues that share chain/number/insertion code, name equality, occupancy class "
     "incl. 0.0, missing and a sum of 0.99, atoms of no known type) for all 32 option combinations, are exactly those of the van-der-Waals definition (extra = 0.5 iff MolProbity; each option guards exactly one filter; occupancy rule and sum; "
-    "atoms considered; record roles; each pair once) and nothing else skips a pair (closed world of the atomic conditions); the evaluated call of find_clashes in main binds every option parameter to the switch of the same name; running maxima "
+    "atoms considered; record roles; each pair once) and nothing else skips a pair (closed world of the atomic conditions); the evaluated call of find_clashes in main binds every option parameter to the switch of the same name and hands over the whole structure of the input file (no option reaches the parser; main does not filter what find_clashes returns); running maxima "
     "read the entry they write; occupancy defaults only for None; report and CSV list exactly the clashes found, every atom under its own residue (the key a clash is filed under and the stored record agree on the order of the pair), the maxima "
     "printed per residue pair and per chain pair equal the maxima of the atom clashes listed below the heading (largest sum in the middle of file and sort order, residue pairs that differ in one identity component only), both outputs in the "
     "same order and independent of set iteration order. Completeness of a search radius is a for-all-pairs claim decided here for all type pairs at once.",
